@@ -14,8 +14,9 @@ obs[1] = ref result    vs driver line `spec`    (Lean spec ≡ Python reference:
 obs[2] = Safe / inFragment, Python mirror vs Lean
 obs[3..6] = the same two pairs for the SAME prepared query evaluated again: after the data object was changed in place
          (case["ds2"]) and on another Graph / Dataset object with the same graph names (case["ds3"])
-obs[-2] = the `lazy` / `_vars` annotations on rdflib's tree vs the Lean model of `analyse` / `_addVars` (Analysis.lean)
-obs[-1] = impl result vs the Lean evaluator on the tree re-annotated by the Lean analysis (`amodel`)
+obs[-3] = the `lazy` / `_vars` annotations on rdflib's tree vs the Lean model of `analyse` / `_addVars` (Analysis.lean)
+obs[-2] = impl result vs the Lean evaluator on the tree re-annotated by the Lean analysis (`amodel`)
+obs[-1] = rdflib's own translated tree vs the Lean model of the translation run on the generator's syntax tree (`translate`)
 viol   = impl ≠ ref   (the property itself, decided without Lean; tags reeval-… / other-… for the re-evaluations)
 """
 import atexit
@@ -90,6 +91,20 @@ def gen_case(rng, tier, i):
     # Graph / Dataset object with the same graph names (ds3)
     case = {"ds": ds, "q": q, "ds2": G.mutate_dataset(rng, ds), "ds3": G.mutate_dataset(rng, ds)}
     case.update(_gen_surface(rng, tier, ds, q))
+    # GRAPH streams on a ConjunctiveGraph: its default context is named by a blank node, holds triples of its own, and is
+    # listed by contexts() — GRAPH ?g must not range over it.  A ConjunctiveGraph's default graph is the union and it has no
+    # graphs without triples, so the data is adjusted to what it can hold (every named graph and the default context
+    # non-empty, in all three datasets of the case).
+    if ds["named"] and "(graph " in G.sx_query(q) and rng.random() < (0.5 if "(graph ?" in G.sx_query(q) else 0.2):
+        for k in ("ds", "ds2", "ds3"):
+            d = case[k]
+            d["union"] = True
+            for j, (name, ts) in enumerate(d["named"]):
+                if not ts:
+                    d["named"][j] = [name, [[["i", j % 3], ["i", 10 + j % 2], ["i", (j + 1) % 3]]]]
+            if not d["default"]:
+                d["default"] = [[["i", 0], ["i", 10], ["i", 1]]]
+        case["operand"] = "conjunctive"
     return case
 
 
@@ -117,7 +132,7 @@ def _gen_surface(rng, tier, ds, q):
                 kinds.append("conjunctive")       # ConjunctiveGraph: default graph = union; it has no empty graphs
             kinds.append("dataset-extra-call")    # the Dataset is also queried by an unrelated query first
         else:
-            kinds = ["graph-simplememory", "graph-in-dataset", "aggregate", "graph-identified"]
+            kinds = ["graph-simplememory", "graph-in-dataset", "aggregate", "graph-identified", "graph-in-conjunctive"]
         out["operand"] = rng.choice(kinds)
     return out
 
@@ -169,6 +184,14 @@ def _build_operand(kind, ds, q):
                 for t in {G.T(t) for t in nts} - {G.T(t) for t in ots}:
                     ctx_.add(T3(t))
         return cg, mut
+    if kind == "graph-in-conjunctive":
+        cg = ConjunctiveGraph()                      # a context of a ConjunctiveGraph that holds other contexts too
+        cg.default_context.add((URIRef(NS + "0"), URIRef(NS + "10"), URIRef(NS + "0")))
+        cg.get_context(URIRef(NS + "20")).add((URIRef(NS + "1"), URIRef(NS + "11"), URIRef(NS + "2")))
+        g = cg.get_context(URIRef("http://e/779"))
+        for t in ds["default"]:
+            g.add(T3(t))
+        return g, lambda old, new: _mutate_in_place(g, old, new)
     if kind in ("graph-simplememory", "graph-identified", "graph-in-dataset"):
         if kind == "graph-simplememory":
             g = Graph(store=SimpleMemory())
@@ -450,6 +473,12 @@ def run_impl(case):
     except Exception as e:
         annot = f"annot-error {type(e).__name__}"
     obs += [annot, obs_pairs[0][0]]
+    # rdflib's own translated tree (translateGroupGraphPattern, simplify, analyse, _addVars) vs the Lean model of the
+    # translation (Translate.lean) run on the generator's syntax tree
+    try:
+        obs.append(G.canon_tree_text(G.parse_sx(alg)))
+    except Exception as e:
+        obs.append(f"tree-error {type(e).__name__}")
     st["annotated_nodes"] = max(0, len(annot.split(" ")) - 1)
     st["lazy_joins"] = annot.count("J1")
     st["strict_joins"] = annot.count("J0")
@@ -489,7 +518,7 @@ def model_lines(case):
     n = G.nvars(q)
     alg = _algebra_text(G.to_sparql(q))
     lines = ["ds " + G.sx_dataset(ds), f"model {n} {alg}", f"spec {n} {G.sx_query(q)}", f"safe {alg}", f"annot {alg}",
-             f"amodel {n} {alg}"]
+             f"amodel {n} {alg}", f"translate {G.sx_query(q)}"]
     if "ds2" in case and "ds3" in case:
         for k in ("ds2", "ds3"):
             lines += ["ds " + G.sx_dataset(case[k]), f"model {n} {alg}", f"spec {n} {G.sx_query(q)}"]
@@ -532,11 +561,11 @@ def _recanon(line, star):
 def select_model_obs(case, out):
     q = case["q"]
     star = q["form"] == "select" and q["proj"] is None
-    # out: 0 ds, 1 model, 2 spec, 3 safe, 4 annot, 5 amodel [, 6 ds2, 7 model, 8 spec, 9 ds3, 10 model, 11 spec]
+    # out: 0 ds, 1 model, 2 spec, 3 safe, 4 annot, 5 amodel, 6 translate [, 7 ds2, 8 model, 9 spec, 10 ds3, 11 model, 12 spec]
     sel = [_recanon(out[1], star), _recanon(out[2], star), out[3]]
-    if len(out) >= 12:
-        sel += [_recanon(out[7], star), _recanon(out[8], star), _recanon(out[10], star), _recanon(out[11], star)]
-    sel += [out[4], _recanon(out[5], star)]
+    if len(out) >= 13:
+        sel += [_recanon(out[8], star), _recanon(out[9], star), _recanon(out[11], star), _recanon(out[12], star)]
+    sel += [out[4], _recanon(out[5], star), out[6]]
     return sel
 
 
